@@ -23,8 +23,9 @@ InfoLens == {NoneLen, 0, 1, 255, 256, 65535, 65536}
 DstLens  == {NoneLen, 1, 16, 255, 256}
 MsgLens  == {0, 1, 32, 255, 256, 257, 65535}
 ApiIds   == {"plain", "blind", "blindgen", "none", "empty", "custom", "custom2",
-             "long236", "long237b", "long237c", "long300x", "long300y"}     \* long ids agreeing on a long prefix
-Counts   == {0, 1, 2, 3, 16, 33, 64}
+             "long236", "long237b", "long237c", "long300x", "long300y",     \* long ids agreeing on a long prefix
+             "bin_ff", "bin_fe", "bin_c0", "bin_fffd"}                      \* ids that are not UTF-8, differing in ill-formed octets only
+Counts   == {0, 1, 2, 3, 16, 33, 64, 65, 66, 67, 130}
 
 \* ---- the deterministic operations, abstractly: a result is a function of the arguments
 F(call) == << "result-of", call >>
